@@ -189,9 +189,15 @@ class SyncedList(SyncedCollection, MutableSequence):
         """
         data = _convert_numpy(data)
         if _sequence_resolver.get_type(data) == "SEQUENCE":
-            self._update(data)
-            with self._thread_lock:
-                self._save()
+            if self._root is None:
+                self._update(data)
+                with self._thread_lock:
+                    self._save()
+            else:
+                # A nested collection may be stale: other handles can have
+                # changed the rest of the data, so it must be reloaded first.
+                with self._load_and_save:
+                    self._update(data)
         else:
             raise ValueError(
                 "Unsupported type: {}. The data must be a non-string sequence or None.".format(
@@ -242,9 +248,15 @@ class SyncedList(SyncedCollection, MutableSequence):
             self._data.remove(self._from_base(data=value, parent=self))
 
     def clear(self):  # noqa: D102
-        self._data = []
-        with self._thread_lock:
-            self._save()
+        if self._root is None:
+            self._data = []
+            with self._thread_lock:
+                self._save()
+        else:
+            # A nested collection may be stale: other handles can have
+            # changed the rest of the data, so it must be reloaded first.
+            with self._load_and_save:
+                del self._data[:]
 
     def __lt__(self, other):
         if isinstance(other, type(self)):
